@@ -118,3 +118,20 @@ package kvm
 //@   modifies c.Gas
 //@   ensures [neverNegative] ok ==> old(c.Gas) >= gas && c.Gas == old(c.Gas) - gas
 //@   ensures [refusedUntouched] !ok ==> old(c.Gas) < gas && c.Gas == old(c.Gas)
+
+// ---------------------------------------------------------------- C10: jump validity
+//@ trusted func (c *Contract) isCode(udest uint64) (r bool)
+//@   modifies c.analysis
+
+//@ func (c *Contract) validJumpdest(dest *uint256.Int) (r bool)
+//@   for C10
+//@   safe
+//@   requires c != nil && dest != nil
+//@   modifies c.analysis
+
+//@ func (c *Contract) validJumpSubdest(udest uint64) (r bool)
+//@   for C10
+//@   safe
+//@   requires c != nil
+//@   modifies c.analysis
+//@   ensures r ==> udest < len(c.Code) && c.Code[udest] == BEGINSUB
